@@ -945,7 +945,12 @@ func execSentinel(t *testing.T, plan any, out *Outcome) {
 		}
 	}
 	if rr.Reason != "done" || setupErr != nil {
-		out.HarnessErr = fmt.Sprintf("setup failed: reason=%s err=%v", rr.Reason, setupErr)
+		// a constructor that fails because the client itself misconfigured a connection is a finding, not harness trouble
+		before := len(out.Violations)
+		sr.judgeSetup()
+		if len(out.Violations) == before {
+			out.HarnessErr = fmt.Sprintf("setup failed: reason=%s err=%v", rr.Reason, setupErr)
+		}
 		stopClient()
 		e.finish()
 		return
